@@ -15,12 +15,20 @@ NA = {
  "C20":"single-caller call sequences on one value; no schedule, clock, stream, fault or second party",
 }
 PENDING = {
- "C03":"check under construction in this session (stream scenario); claimed once its quick command exists",
  "C04":"check under construction in this session (hostile scenario)",
- "C05":"check under construction in this session (proxy scenario)",
 }
 TECH = "deterministic simulation with fault injection"
 CLAIMED = {
+ "C03": dict(cat="exploration",
+   text="writer and reader tasks over a simulated connection with back-pressure, latency and short reads: 1-40 generated frames of every kind written back-to-back and decoded until EOF by three decoding routes; declared lengths checked against the tapped bytes, an independent splitter by declared length, exact consumption at every frame boundary, and no party left waiting for bytes that never come",
+   ref="DESIGN.md §5 C03",
+   note="sampled frames and delivery schedules; the per-notation LengthOf*/Write* clause over whole value domains is pure and covered only as exercised by generated frames (said in the evidence)",
+   tech=TECH+" (writer/reader tasks over a simulated byte stream with seeded chunking and back-pressure; wire-tap length oracle)"),
+ "C05": dict(cat="exploration",
+   text="a proxy task between two simulated links forwards generated frames with each of the partial operations a proxy uses, from non-seekable and seekable sources; exact consumption, agreement of both decoding routes and end-to-end equality are checked; the re-encode clause is checked on valid and on mutated-in-transit encodings",
+   ref="DESIGN.md §5 C05",
+   note="sampled frames, operations and mutations; v5 frames travel as plain envelopes (a proxy of segments is out of scope); three known findings cover the re-encode clause on mutated input only",
+   tech=TECH+" (proxy task between two simulated links, seeded delivery and in-transit mutation; consumption and equality oracles)"),
  "C18": dict(cat="exploration",
    text="2-4 tasks make calls on shared codec instances (frame, raw, segment, compressors, datacodec singletons and composite codecs) with every statement of the codec packages a seeded scheduling point; each result must equal the sequential result on the same instances, before and after. The data-race clause is covered by a supplementary -race run with real goroutines, labelled non-deterministic in the evidence",
    ref="DESIGN.md §5 C18",
